@@ -74,6 +74,9 @@ import (
 	"testing"
 )
 
+// the process's real standard output (harnesses may redirect os.Stdout and panic before restoring it)
+var verifRealStdout = os.Stdout
+
 var verifHarnessTable = map[string]func(){
 TABLE}
 
@@ -98,7 +101,7 @@ func TestVerifReplay(t *testing.T) {
 	rp := verifSt.rp
 	f := verifHarnessTable[os.Getenv("VERIF_FUNC")]
 	if f == nil {
-		fmt.Println("VERIF-REPLAY: no-such-harness", os.Getenv("VERIF_FUNC"))
+		fmt.Fprintln(verifRealStdout, "VERIF-REPLAY: no-such-harness", os.Getenv("VERIF_FUNC"))
 		return
 	}
 	attempts, _ := strconv.Atoi(os.Getenv("VERIF_ATTEMPTS"))
@@ -120,35 +123,35 @@ func TestVerifReplay(t *testing.T) {
 		if pan != "" {
 			seen["no-panic"]++
 			if expect == "violated" && want == "no-panic" {
-				fmt.Printf("VERIF-REPLAY: reproduced assert=no-panic attempt=%d panic=%q\n", i, pan)
+				fmt.Fprintf(verifRealStdout, "VERIF-REPLAY: reproduced assert=no-panic attempt=%d panic=%q\n", i, pan)
 				return
 			}
 			if expect == "clean" {
-				fmt.Printf("VERIF-REPLAY: unexpected-failure panic=%q\n", pan)
+				fmt.Fprintf(verifRealStdout, "VERIF-REPLAY: unexpected-failure panic=%q\n", pan)
 				return
 			}
 		}
 		for _, fl := range fails {
 			seen[fl]++
 			if expect == "violated" && fl == want {
-				fmt.Printf("VERIF-REPLAY: reproduced assert=%s attempt=%d\n", fl, i)
+				fmt.Fprintf(verifRealStdout, "VERIF-REPLAY: reproduced assert=%s attempt=%d\n", fl, i)
 				return
 			}
 		}
 		if expect == "clean" && len(fails) > 0 {
-			fmt.Printf("VERIF-REPLAY: unexpected-failure asserts=%v\n", fails)
+			fmt.Fprintf(verifRealStdout, "VERIF-REPLAY: unexpected-failure asserts=%v\n", fails)
 			return
 		}
 	}
 	if expect == "clean" {
 		if assumeFails == attempts {
-			fmt.Println("VERIF-REPLAY: assume-failed")
+			fmt.Fprintln(verifRealStdout, "VERIF-REPLAY: assume-failed")
 			return
 		}
-		fmt.Println("VERIF-REPLAY: clean")
+		fmt.Fprintln(verifRealStdout, "VERIF-REPLAY: clean")
 		return
 	}
-	fmt.Printf("VERIF-REPLAY: not-reproduced seen=%v assume-failed=%d\n", seen, assumeFails)
+	fmt.Fprintf(verifRealStdout, "VERIF-REPLAY: not-reproduced seen=%v assume-failed=%d\n", seen, assumeFails)
 }
 `
 
